@@ -279,3 +279,76 @@ func classifyC12Race(c c12RaceCase) ([]string, bool) {
 func TestC12Race_SharedConfig(t *testing.T) {
 	prop[c12RaceCase]{property: "C12", gen: genC12Race, check: checkC12Race, classify: classifyC12Race}.run(t)
 }
+
+// ---- C06 race clause: concurrent Match*, Skip* and one shared Config, one shared file ------------------------
+
+type c06RaceCase struct {
+	Spec  CfgSpec    `json:"options"`
+	Tests [][]Call   `json:"goroutines"`
+	Skips []string   `json:"skips"` // per goroutine: "" or the Skip* kind called after its calls
+	Pre   bool       `json:"prerecorded"`
+	Mode  Mode       `json:"mode"`
+}
+
+func genC06Race(t *rapid.T) c06RaceCase {
+	r := genC12Race(t)
+	c := c06RaceCase{Spec: r.Spec, Tests: r.Tests, Pre: rapid.Bool().Draw(t, "pre")}
+	c.Spec.Update = nil
+	for range c.Tests {
+		c.Skips = append(c.Skips, rapid.SampledFrom([]string{"", "", "Skip", "Skipf", "SkipNow"}).Draw(t, "skip"))
+	}
+	if rapid.Bool().Draw(t, "updatemode") {
+		c.Mode = Mode{Update: "true"}
+	}
+	return c
+}
+
+func checkC06Race(c c06RaceCase) error {
+	root := scratchDir()
+	defer os.RemoveAll(root)
+	spec := c.Spec
+	spec.Filename = ""
+	run := func(mode Mode, variant int) {
+		newProcess(mode)
+		cfg := spec.build(root)
+		var wg sync.WaitGroup
+		start := make(chan struct{})
+		for i, calls := range c.Tests {
+			wg.Add(1)
+			go func(i int, calls []Call) {
+				defer wg.Done()
+				<-start
+				ft := newFakeT(fmt.Sprintf("TestG%d", i))
+				for _, call := range calls {
+					if variant == 1 && (call.API == "snap" || call.API == "ssnap") {
+						call.Vals = []Val{strVal("changed value")} // forces mismatches / updates in the second process
+					}
+					call.invoke(cfg, ft)
+				}
+				switch c.Skips[i] {
+				case "Skip":
+					Skip(ft, "x")
+				case "Skipf":
+					Skipf(ft, "x %d", i)
+				case "SkipNow":
+					SkipNow(ft)
+				}
+				ft.finish()
+			}(i, calls)
+		}
+		close(start)
+		wg.Wait()
+	}
+	if c.Pre {
+		run(Mode{}, 0)
+	}
+	run(c.Mode, 1)
+	return nil
+}
+
+func TestC06Race_SharedFile(t *testing.T) {
+	prop[c06RaceCase]{property: "C06", gen: genC06Race, check: checkC06Race,
+		classify: func(c c06RaceCase) ([]string, bool) {
+			return classifyC12Race(c12RaceCase{Spec: c.Spec, Tests: c.Tests})
+		}}.run(t)
+}
